@@ -32,24 +32,29 @@ def main(tier, args):
             # ASan families: every odd partition (the only one of a single-partition family) runs its protos with setLogEnable(true)
             log = "1" if (tag == "asan" and (p % 2 == 1 or nparts == 1)) else "0"
             jobs.append(("%s:%s:%d" % (tag, name, p), [exe, name, str(p), str(nparts), lvl, str(maxseg), log]))
-    depth = 12 if thorough else 7     # thorough reaches the BFS fixpoint (depth 8-11) for every configuration
-    # (proto, engine, timeout_sec, optional ops: r = cleanup+initialize once, b = one request in the opposite direction)
-    # quick: op r on every configuration, op b on one (the product r x b - measured on raw/epoll/2: fixpoint at depth 9, 17636 states, 174546 transitions - is left to the thorough tier)
-    cfgs = [("raw", "epoll", 2, "b"), ("raw", "epoll", 2, "r"), ("header", "epoll", 2, "r"), ("packet", "epoll", 2, "r"), ("raw", "select", 2, "r"),
-            ("raw", "epoll", 1, "r"), ("raw", "epoll", 3, "r"), ("raw", "epoll", 0, "r")]
+    depth = 12 if thorough else 7     # thorough reaches the BFS fixpoint (depth 8-11) for every option set measured
+    # (proto, engine, timeout_sec, optional ops): r = cleanup ... initialize as separate ops (anything in between) + destruction without cleanup, b = one request in the
+    # opposite direction, h = half-second clock steps, d = send callback removed ... restored, c = a request whose response callback runs cleanup+initialize
+    # quick (depth 7; measured transitions on raw/epoll/2: r 30k, b 39k, h 20k, d 28k, c 17k, rc 55k, hd 60k, rd 75k, hb 109k, all five 703k): every letter on >=2 configurations
+    # (raw/epoll/3 b at depth 6: 28k; raw/epoll/30 without optional ops: 15k transitions of twenty loop passes per advance)
+    cfgs = [("raw", "epoll", 2, "hd"), ("raw", "epoll", 2, "rc"), ("raw", "epoll", 2, "b"), ("raw", "epoll", 3, "b", 6), ("raw", "epoll", 0, "-"), ("header", "epoll", 2, "r"),
+            ("packet", "epoll", 2, "d"), ("raw", "select", 2, "h"), ("raw", "epoll", 1, "rh")]
     if thorough:
-        # measured (loaded machine): rb reaches its fixpoint at depth 8/9/11 for timeout 1/2/3 (3712/17636/51508 states, 45 s/65 s/280 s); with the 30 s default every
-        # advance is ten loop passes, so those configurations keep op r only (rb did not finish within 500 s)
-        cfgs = [(p, e, t, "rb" if t else "r") for p, e, t, o in cfgs[1:]]
-        cfgs += [("header", "select", 3, "rb"), ("packet", "select", 1, "rb"), ("header", "epoll", 0, "r"), ("packet", "select", 0, "r")]
+        # measured at depth 12 on raw/epoll/2 (loaded machine): rb fixpoint at depth 11 (46174 states, 436617 transitions, 240 s), hd depth 10 (11350 / 100065, 80 s), rc depth 10 (9939 / 86546, 72 s)
+        base = [("raw", "epoll", 2), ("header", "epoll", 2), ("packet", "epoll", 2), ("raw", "select", 2), ("raw", "epoll", 1), ("raw", "epoll", 3), ("raw", "epoll", 0),
+                ("header", "select", 3), ("packet", "select", 1), ("header", "epoll", 0), ("packet", "select", 0)]
+        sets = {0: ["r", "h"], 1: ["rb", "hd", "rc"], 2: ["rb", "hd", "rc"], 3: ["r", "b", "hd", "rc"]}
+        cfgs = [(p, e, t, o) for p, e, t in base for o in sets[t]]
+        cfgs.sort(key=lambda c: -(len(c[3]) * 10 + c[2]))      # longest first
     def rpc_jobs(cs):
-        for p, e, t, o in cs:
-            jobs.append(("rpc:%s:%s:t%d:%s" % (p, e, t, o), [rpc, p, e, str(t), str(depth), o]))
+        for c in cs:
+            p, e, t, o = c[:4]
+            jobs.append(("rpc:%s:%s:t%d:%s" % (p, e, t, o), [rpc, p, e, str(t), str(c[4] if len(c) > 4 else depth), o]))
     # longest first
     if thorough:
         rpc_jobs(cfgs)
     else:
-        rpc_jobs([c for c in cfgs if c[2] == 0 or c[3] == "b"])
+        rpc_jobs(cfgs[:3])
     fam(frame, "asan", "roundtrip", 8 if thorough else 6)
     fam(frame, "asan", "trunc", 4)
     fam(frame, "asan", "segment", 8 if thorough else 4, 2)      # 2-segment splits + chunkings reach every distinct onRecvData window under ASan
@@ -57,9 +62,10 @@ def main(tier, args):
     fam(frame_opt, "opt", "segment", 8 if thorough else 4)      # the full <=3(4)-segment sweep runs on the -O2 build (40x faster)
     fam(frame_opt, "opt", "mixed", 8 if thorough else 4)
     if not thorough:
-        rpc_jobs([c for c in cfgs if not (c[2] == 0 or c[3] == "b")])
+        rpc_jobs(cfgs[3:])
     jobs.append(("rpc:lane", [rpc, "lane"]))
     fam(frame, "asan", "big", 6 if thorough else 2)
+    fam(frame, "asan", "headcode", 4 if thorough else 2)
     fam(frame, "asan", "bytes", 4 if thorough else 2)
     fam(frame, "asan", "envelope", 6 if thorough else 4)
     fam(frame, "asan", "len", 2)
@@ -86,27 +92,35 @@ def main(tier, args):
                    "BOUNDARY SIZES AND IDS [ASan]: ids {1,127,128,255,256,32767,32768,65535,65536,2^31-1,-1,-128,-129,-32768,-32769,-2^31} x {request,result,error with that code} x 3 protos round trip; "
                    "string values sized so that the encoded frame content is exactly {255,256,257,65535,65536,65537,70000%s} bytes, ending in a / escaped quote / escaped backslash, as params and as result, 3 protos: round trip equal, "
                    "followed by a small frame -> two messages and all consumed, and (stream framings) the same under 2-segment splits at every cut near 1..8, 254..263, 65535..65543, frame end-2..+7 and fixed chunk sizes {255,256,4096; 1 for frames <=400 bytes}. "
-                   "LOGGING: every odd ASan partition (and every single-partition family) runs its protos with setLogEnable(true)+setLogLabel; each log record is really formatted by an instrumented sink (checks/C14/log_fmt_stub.cpp). "
+                   "HEAD CODES [ASan]: header framing with head codes {0x0000,0x00ff,0xff00,0xffff,0x8081,0x5a3e,0x7f80,0x8000}: boundary-id round trips, every pool single and pair under every 2-segment split and chunk size, frames of each code refused by a proto expecting 0x3e5a and vice versa. "
+                   "PRESENTATION: every onRecvData buffer ends exactly at the data (ASan) and starts 0..3 bytes into its block in rotation (misaligned wide reads -> UBSan); the packet encoder must write each message in ONE send; the 2-argument sendRequest overload carries the pool's param-less request; "
+                   "a proto without send callback must swallow every boundary-id / boundary-size message silently. "
+                   "LOGGING: every odd ASan partition (and every single-partition family) runs its protos with setLogEnable(true)+setLogLabel; each log record is really formatted by an instrumented sink (checks/C14/log_fmt_stub.cpp), "
+                   "and such a partition FAILS (harness-log-records-fewer-than-...) unless formatted records >= encoder sends + accepted receives. "
                    "(H, completion) BFS depth %d over {request with behaviour in (plain: peer's service defers | completion callback issues a follow-up | peer's service answers synchronously with a result | ... with an error | unknown method (kMethodNotFound) | "
-                   "synchronous answer whose callback, running inside request(), issues a follow-up | two notify() overloads then the request(method, cb) overload), "
-                   "deliver result|error for any issued request (hence duplicate/late too), one op delivering responses with a future id, id 1000, id 0 (result and error), id -1 and, for every id issued so far in either direction, result and error responses whose id is that id +2^32, -2^32, +3*2^32 and +(2^32-1)*2^32 (equal to it after truncation to 32 bits), advance 1 s + loop pass, "
-                   "[op r] Rpc::cleanup() + three deliveries into the now unwired proto + initialize() + addService, at most once, [op b] one request in the opposite direction (same numeric ids) and its answer} "
+                   "synchronous answer whose callback, running inside request(), issues a follow-up | two notify() overloads then the request(method, cb) overload | [op c] the RESPONSE callback runs Rpc::cleanup()+initialize()+addService()), "
+                   "deliver result|error for any issued request (hence duplicate/late too), one op delivering responses with a future id, id 1000, id 0 (result and error), id -1 and, for every id issued so far in either direction, result and error responses whose id is that id +2^32, -2^32, +3*2^32 and +(2^32-1)*2^32 (equal to it after truncation to 32 bits), advance 1 s (two 500 ms steps, a loop pass after each), [op h] advance 500 ms + pass (requests issued between ring ticks), "
+                   "[op r] Rpc::cleanup() and, later, initialize(timeout_sec or timeout_sec+1)+addService as SEPARATE ops, once each - in between the clock moves, responses / unknown ids / the peer's request are delivered into the unwired proto, no request can be issued; "
+                   "or destruction WITHOUT cleanup() followed only by clock steps, [op d] proto.setSendCallback(null) ... restored, once each (a request issued meanwhile leaves nothing on the wire and must time out; an answer to the peer is dropped), "
+                   "[op b] one request in the opposite direction (same numeric ids; asynchronous service) and its answer} "
                    "on two real Rpc peers wired back-to-back on a real loop with a virtual monotonic clock; <=3 requests A->B; timeout_sec in {1,2,3,default 30 (advance = 10 ticks)}; 3 protos; epoll+select; %s; "
-                   "reference model = per-request ring countdown per side; oracle = callback exactly once, with the matching response if delivered before the ring wraps (inside request() for a synchronous answer), else kRequestTimeout in exactly that tick; "
-                   "after cleanup+initialize: requests of the first session are never called back again and responses carrying their ids are ignored, requests of the second session complete like any other, timeouts included; "
-                   "canonical state = per side: id counter, pending-callback ids, to-be-responded set, both TimeoutMonitor rings + timer/callback flags, service count; loop timer heap; ids seen by each peer; model: pending countdowns, chaining flag, budget. "
+                   "reference model = per-request ring countdown per side + the phase of each side's 1 s ring timer (started by an add into an empty ring); oracle = callback exactly once, with the matching response if delivered before the ring wraps (inside request() for a synchronous answer), else kRequestTimeout in exactly that tick; "
+                   "after cleanup (also from inside a response callback) or destruction: requests of that session are never called back again and responses carrying their ids are ignored, requests of the second session complete like any other, timeouts included; "
+                   "canonical state (private members read through engine/probe.h only for this key; a member that no longer exists degrades the key, the last 3 ops are appended then) = per side: id counter, pending-callback ids, to-be-responded set, both TimeoutMonitor rings + timer/callback flags, service names, proto wiring; loop timer heap; ids seen by each peer and on the wire; model: pending countdowns, timer phases, session/connection flags, budget. The experiment is driven through public API only (ids read from the bytes on the wire, sendJson through a subclass). "
                    "LANE (deterministic, outside the BFS; 3 protos x 2 engines x timeout {1,2,3} x N in {2,20,60}): L1 N pending, responses with every pending id +-2^32 (ignored), the callback of the first response issues 15 follow-ups, the rest answered in reverse, all duplicated, late copies after the timeouts; "
                    "L2 two staggered groups never answered: the first timeout callback makes the peer answer every other request re-entrantly and issues 15 follow-ups; L3 a chain of N synchronously answered requests each issued from the previous callback: "
-                   "every callback exactly once with its own result or its timeout in exactly its tick" % (b[:7] + (",2^24" if thorough else "", b[7], "ops r and b together on every configuration with an explicit timeout_sec, op r alone with the 30 s default" if thorough else "op r on every configuration, op b (without r) on raw/epoll/timeout 2")),
+                   "every callback exactly once with its own result or its timeout in exactly its tick" % (b[:7] + (",2^24" if thorough else "", b[7], "option sets {rb,hd,rc} for timeout_sec 1 and 2, {r,b,hd,rc} for 3, {r,h} for the 30 s default, on 11 proto/engine/timeout configurations" if thorough else "option sets per configuration: raw/epoll/2 b, rc, hd; raw/epoll/3 b (depth 6); raw/epoll/30 none; header/epoll/2 r; packet/epoll/2 d; raw/select/2 h; raw/epoll/1 rh")),
               assumptions=["decoded values are observed through the public request/response callbacks, so test values travel as params/result of JSON-RPC envelopes (DESIGN 1.7)",
                            "for the packet framing the unit of segmentation is the packet (DESIGN 1.7)",
                            "on hostile streams only the decoded message sequence is compared between segmentations (a differing error/stall status is counted in hostile_status_diffs, not flagged)",
                            "the protos keep no receive state between calls, so the 2-segment splits run under ASan present every distinct buffer window that the 3-segment splits (run on the -O2 build) present",
                            "stack exhaustion is judged on the -O2 -DNDEBUG build with the default 8 MiB main-thread stack, not on the ASan build (inflated frames)",
-                           "all clock movement is in whole seconds, so every advance while a TimeoutMonitor holds an id is exactly one ring tick",
+                           "all clock movement is in 500 ms steps each followed by a loop pass, so the clock never jumps past a ring tick (a late tick would re-phase the timer; not explored)",
                            "clock reads are interposed at clock_gettime/gettimeofday/time; epoll_wait/select are forced to zero timeout",
                            "responses are delivered synchronously into the requester's onRecvData (as modules/jsonrpc/rpc_test.cpp wires its peers)",
                            "Rpc::cleanup() abandons pending requests: the oracle accepts either silence (what the code does) or one error callback while cleanup() runs, and demands silence afterwards",
                            "a response delivered from inside a timeout callback of the very tick in which its own request expires may be reported as either the response or the timeout (order within a tick is not promised), still exactly once",
                            "a duplicate of a response delivered re-entrantly from inside that response's own completion callback is explored by lane L4 (C14_REENTRANT_DUP=0 turns it off)",
+                           "Rpc::cleanup() called from inside a TIMEOUT callback is NOT explored by default (switch C14_CLEAN_IN_TIMEOUT=1): the unchanged TimeoutMonitor throws bad_function_call for the next id of the slot - see the check's report",
+                           "a request issued while the Rpc is cleaned up (proto_ == nullptr) or with timeout_sec < 1 is API misuse and not explored",
                            "message ids that are not int-range integers (strings, fractions, 64-bit values, null) are only required not to throw; which id the callback then sees is not judged"])
